@@ -135,3 +135,40 @@ void h_vi_delete(void)
 	__CPROVER_assert(0, "canary");
 #endif
 }
+
+
+/* ================================================================== vi_pipe: "!motion cmd" filters exactly the lines of the region (C08, C06) */
+struct ghost_pp_in { int has_cmd, has_out; } PPI;
+struct ghost_pp { int pipe_calls, pipe_oproc; char *pipe_cmd, *pipe_in; int putln; } PP;
+static char t_cmd[2], t_out[2], t_hist[2];
+static char *vi_prompt(char *msg, int *kmap, char *hist) { return PPI.has_cmd ? t_cmd : (char *) 0; }
+static char *reg_getln(int h) { return t_hist; }
+static void reg_putln(int h, char *s) { PP.putln++; }
+char *cmd_pipe(char *cmd, char *ibuf, int oproc)
+{
+	PP.pipe_calls++; PP.pipe_cmd = cmd; PP.pipe_in = ibuf; PP.pipe_oproc = oproc;
+	return PPI.has_out ? t_out : (char *) 0;
+}
+void h_vi_pipe(void)
+{
+	int r1 = nondet_int(), r2 = nondet_int();
+	GHOST_INIT();
+	__CPROVER_assume(0 <= r1 && r1 <= r2 && r2 <= 0x1000000);
+	PPI.has_cmd = nondet_bool(); PPI.has_out = nondet_bool();
+	DY.r1 = r1; DY.r2 = r2; DY.nsub = 0; DY.cp_calls = 0; DY.nstr = 0; DY.put_calls = 0; DY.cat_calls = 0; DY.edit_calls = 0; DY.dup_calls = 0; DY.bad = 0;
+	PP.pipe_calls = PP.putln = 0;
+	vi_pipe(r1, r2);
+	if (!PPI.has_cmd) {
+		H_ASSERT(PP.pipe_calls == 0 && DY.edit_calls == 0, "vi_pipe: an aborted prompt runs nothing and changes nothing");
+		return;
+	}
+	H_ASSERT(DY.cp_calls == 1 && DY.cp_beg == r1 && DY.cp_end == r2 + 1, "vi_pipe: exactly the lines of the region are handed to the command");
+	H_ASSERT(PP.pipe_calls == 1 && PP.pipe_cmd == t_cmd && PP.pipe_in == t_cp && PP.pipe_oproc == 1, "vi_pipe: the typed command runs once with those lines as its input, its output collected");
+	if (PPI.has_out)
+		H_ASSERT(DY.edit_calls == 1 && DY.edit_text == t_out && DY.edit_beg == r1 && DY.edit_end == r2 + 1, "vi_pipe: the command's output replaces exactly the lines of the region");
+	else
+		H_ASSERT(DY.edit_calls == 0, "vi_pipe: a command that could not be run leaves the buffer unchanged");
+#ifdef CANARY
+	__CPROVER_assert(0, "canary");
+#endif
+}
